@@ -241,8 +241,8 @@ func c14Recover(d *vCtx) error {
 			rng := d.rng(int64(sq))
 			hops := 1 + sq%2
 			chain := newE2ERelayChain(hops)
-			endings := []string{"success", "fault", "stop", "success"}
-			rng.Shuffle(3, func(i, j int) { endings[i], endings[j] = endings[j], endings[i] })
+			endings := []string{"success", "fault", "stop", "refuse", "success"}
+			rng.Shuffle(4, func(i, j int) { endings[i], endings[j] = endings[j], endings[i] })
 			tr.Emit(map[string]any{"e": "chain", "seq": sq, "hops": hops}, nil)
 			for ti := 0; ti < len(endings); ti++ {
 				how := endings[ti]
@@ -260,6 +260,11 @@ func c14Recover(d *vCtx) error {
 				}
 				c.Bases = make([]string, len(c.Nodes))
 				switch how {
+				case "refuse": // the server refuses after the action (directory mode, client without support): no configuration
+					c.Opts.Directory = true
+					c.Opts.NoDirClient = true
+					c.Nodes = []e2eNode{{Rel: "tree/a.txt", Size: 3000}, {Rel: "tree/sub/b.bin", Size: 100, Kind: 1}}
+					c.Bases = make([]string, len(c.Nodes))
 				case "fault":
 					c.Plan.Faults = []e2eFault{{Dir: []string{"c2s", "s2c"}[rng.Intn(2)], Off: 400 + rng.Intn(600), Kind: "flip", Val: 0x10}}
 				case "stop":
@@ -309,6 +314,7 @@ func c14Recover(d *vCtx) error {
 				}
 				tr.Emit(map[string]any{"e": "xfer", "run": id, "seq": sq, "how": how, "hops": hops, "trigger": res.TriggerSeen,
 					"consUp": consUp, "consDown": consDown, "consNote": consDetail,
+					"ctimeout": strings.Contains(strings.ToLower(res.ClientErr), "timeout"), "cms": int(res.ClientMs),
 					"actIn": flat(res.ActSent), "actOut": flat(res.ActAtServer), "cfgIn": flat(res.CfgSent), "cfgOut": flat(res.CfgAtClient),
 					"statuses": st, "probeUp": up, "probeDown": down,
 					"marked": strings.Contains(res.TriggerShown, "#R")}, nil)
